@@ -10,6 +10,7 @@ import (
 	"math"
 	"math/rand"
 	"runtime"
+	"strconv"
 	"strings"
 
 	"github.com/onheap/eval"
@@ -114,10 +115,72 @@ func compileVariant(src string, o ConfOpts, wantProg bool) *compiled {
 		if wantProg {
 			rec["hasprog"] = true
 			rec["prog"] = progJSON(eval.VerifProgram(e))
+			rec["tab"] = parseTable(d["t"])
 		}
 	}
 	c.rec = rec
 	return c
+}
+
+// parseTable reads the numeric rows of DumpTable(e, true): fixed-width cells of '|' + 5 runes.
+func parseTable(t interface{}) M {
+	bad := M{"ok": false, "size": 0, "stack": 0, "idx": []interface{}{}, "pIdx": []interface{}{}, "flag": []interface{}{},
+		"cCnt": []interface{}{}, "scIdx": []interface{}{}, "scVal": []interface{}{}, "osTop": []interface{}{}}
+	text, isStr := t.(string)
+	if !isStr {
+		return bad
+	}
+	lines := strings.Split(text, "\n")
+	if len(lines) < 10 {
+		return bad
+	}
+	res := M{"ok": true}
+	var size, stack int
+	if _, err := fmt.Sscanf(lines[0], "node  size: %d", &size); err != nil {
+		return bad
+	}
+	if _, err := fmt.Sscanf(lines[1], "stack size: %d", &stack); err != nil {
+		return bad
+	}
+	res["size"], res["stack"] = size, stack
+	for _, ln := range lines[2:] {
+		rs := []rune(ln)
+		if len(rs) < 7 {
+			continue
+		}
+		name := strings.TrimSpace(string(rs[:5]))
+		cells := rs[7:]
+		vals := []interface{}{}
+		for len(cells) >= 6 && cells[0] == '|' {
+			vals = append(vals, strings.TrimSpace(string(cells[1:6])))
+			cells = cells[6:]
+		}
+		if name == "node" {
+			continue
+		}
+		if string(cells) != "|" {
+			return bad
+		}
+		if name == "flag" || name == "scVal" {
+			res[name] = vals
+			continue
+		}
+		nums := []interface{}{}
+		for _, v := range vals {
+			n, err := strconv.Atoi(v.(string))
+			if err != nil {
+				return bad
+			}
+			nums = append(nums, n)
+		}
+		res[name] = nums
+	}
+	for _, k := range []string{"idx", "pIdx", "flag", "cCnt", "scIdx", "scVal", "osTop"} {
+		if _, ok := res[k]; !ok {
+			return bad
+		}
+	}
+	return res
 }
 
 func statelessRec(cc *eval.Config) []interface{} {
